@@ -19,6 +19,10 @@ class Fault(Exception):
     """Private exception class raised by fault-injecting containers (C18)."""
 
 
+class FaultStop(StopIteration):
+    """the same injected fault as an instance of a StopIteration subclass (an exception class iterator plumbing treats specially)"""
+
+
 class Uncovered(Exception):
     """Implementation object the projection has no spec counterpart for (reported, never a violation)."""
 
@@ -31,6 +35,7 @@ class Ctl:
         self.writes = []        # (loc-ish id, value) in order
         self.armed = False      # raise Fault on the next write
         self.fail_at_write = None   # absolute index of the write (within the current call) that fails
+        self.stop_flavour = False   # raise FaultStop instead of Fault
 
     def on_write(self, where):
         idx = len(self.writes)
@@ -38,7 +43,7 @@ class Ctl:
             self.armed = False
             self.fail_at_write = None
             self.writes.append((where, "FAULT"))
-            raise Fault(str(where))
+            raise (FaultStop if self.stop_flavour else Fault)(str(where))
         self.writes.append((where, None))
 
 
@@ -270,6 +275,8 @@ class World:
 
     def make_task(self, t):
         sp = self.taskspec[t]
+        if sp["kind"] == "obs":
+            return xt.FunctionTask(t, (lambda: None), set(), {self.ref(x) for x in sp["deps"]})
         if sp["kind"] == "fn":
             i1, i2 = sp["ins"]
             out = sp["out"]
@@ -311,7 +318,8 @@ def abs_loc(uni, r):
     # computed key anywhere in the path -> symbolic location of its innermost occurrence (only last step supported)
     if steps and isinstance(steps[-1][1], xr.BaseRef):
         owner = abs_loc(uni, r._owner)
-        return owner + ".[" + abs_loc(uni, steps[-1][1]) + "]"
+        key = steps[-1][1]
+        return owner + ".[" + (abs_loc(uni, key) if isinstance(key, xr.MutableRef) else "expr") + "]"
     try:
         return uni["inv"][(o._key, tuple(steps))]
     except (KeyError, TypeError):
@@ -518,6 +526,8 @@ def execute(w, lab, fault=None):
             runs.append(abs_tid(w.uni, t))
         except Uncovered:
             runs.append(repr(t))
+    if isinstance(exc, FaultStop):
+        return {"exc": exc, "excname": "Fault", "runs": runs, "writes": list(w.ctl.writes), **extra}
     return {"exc": exc, "excname": type(exc).__name__ if exc is not None else None, "runs": runs, "writes": list(w.ctl.writes), **extra}
 
 
@@ -554,6 +564,8 @@ def transfer(w, lab):
         _assign(w2, lab["keeploc"], w2.build_expr(lab["keepexpr"]))
         w2.m.copy_expr_from(w.m, w.uni["label"], overwrite=False)
     elif kind == "copy_bind_keep":
+        if not w.uni["name"].endswith("/rebased"):
+            _decoy_check(w)
         reb = w.uni["name"].endswith("/rebased")
         w2 = World(w.uni if reb else rebase(w.uni), w.read_mem(), w.taskspec)
         _assign(w2, lab["keeploc"], w2.build_expr(lab["keepexpr"]))
@@ -562,6 +574,49 @@ def transfer(w, lab):
         raise KeyError(kind)
     w2.shadows = list(w.shadows)
     return w2
+
+
+class DecoyMismatch(Exception):
+    pass
+
+
+def _decoy_check(w):
+    """copy_expr_from with a rebinding and overwrite=False into a manager that uses the SAME label, holds the data one level down
+    (s['sub'][...]) and, at top level, unrelated locations with the same printed names as the source's targets, each defined by
+    its own expression.  Rebound targets do not exist yet, so EVERY source definition must arrive under s['sub'], and the
+    unrelated top-level definitions must stay as they are."""
+    uni = w.uni
+    flat = [l for l in uni["leaves"] if len(uni["loc"][l][1]) == 1 and uni["loc"][l][0] == uni["label"]]
+    if len(flat) < 2:
+        return
+    u2 = rebase(uni, label=uni["label"])
+    w2 = World(u2, w.read_mem(), w.taskspec)
+    for l in flat:                                   # decoy data and definitions at top level
+        dict.__setitem__(w2.s, uni["loc"][l][1][0][1], 1000)
+    k0 = uni["loc"][flat[0]][1][0][1]
+    decoys = {}
+    for l in flat[1:]:
+        k = uni["loc"][l][1][0][1]
+        w2.sref[k] = w2.sref[k0] + 100
+        decoys[k] = repr(w2.sref[k]._expr)
+    w2.m.copy_expr_from(w.m, uni["label"], bindings={w.sref: w2.sref["sub"]}, overwrite=False)
+    want = {l: abs_expr(uni, t.expr) for tid, t in w.m.tasks.items() if isinstance(t, xt.ExprTask) for l in [abs_loc(uni, tid)]}
+    got = {}
+    for tid, t in w2.m.tasks.items():
+        if not isinstance(t, xt.ExprTask):
+            continue
+        try:
+            got[abs_loc(u2, tid)] = abs_expr(u2, t.expr)
+        except Uncovered:
+            pass                                     # the decoys live outside the rebased universe
+    if got != want:
+        miss = sorted(set(want) - set(got))
+        raise DecoyMismatch(f"rebinding copy with overwrite=False into a manager that defines unrelated locations printing like the source's targets: "
+                            f"definitions under the new container are {sorted(got)}, the source defines {sorted(want)} (missing {miss})")
+    for k, txt in decoys.items():
+        ex = w2.sref[k]._expr
+        if ex is None or repr(ex) != txt:
+            raise DecoyMismatch(f"the unrelated existing definition of {w2.sref[k]!r} was changed by the copy: {txt} -> {ex!r}")
 
 
 def gen_fun(w, lab):
